@@ -231,7 +231,7 @@ bool muggle_bytes_buffer_write(muggle_bytes_buffer_t *bytes_buf, int num_bytes, 
 	{
 		memcpy(bytes_buf->buffer + bytes_buf->w, src, num_bytes);
 		bytes_buf->w += num_bytes;
-		if (bytes_buf->t < bytes_buf->w)
+		if (bytes_buf->t <= bytes_buf->w)
 		{
 			bytes_buf->t = bytes_buf->c;
 		}
@@ -297,7 +297,7 @@ bool muggle_bytes_buffer_writer_move(muggle_bytes_buffer_t *bytes_buf, int num_b
 	if (cw >= num_bytes)
 	{
 		bytes_buf->w += num_bytes;
-		if (bytes_buf->t < bytes_buf->w)
+		if (bytes_buf->t <= bytes_buf->w)
 		{
 			bytes_buf->t = bytes_buf->c;
 		}
@@ -338,7 +338,7 @@ bool muggle_bytes_buffer_writer_move_n(muggle_bytes_buffer_t *bytes_buf, void *p
 		// without jump
 		bytes_buf->w += num_bytes;
 
-		if (bytes_buf->t < bytes_buf->w)
+		if (bytes_buf->t <= bytes_buf->w)
 		{
 			bytes_buf->t = bytes_buf->c;
 		}
